@@ -80,10 +80,11 @@ Theorem C11_transit_no_app_logic :
   forall (A : Type) (H : bytes -> bytes) (has_route : bytes -> bool)
          (on_recv : A -> packet -> option (A * option bytes))
          (on_ack : A -> packet -> bytes -> option A)
-         (c : chain A) (o : op) (c' : chain A) (ev : list event),
+         (c : chain A) (o : op A) (c' : chain A) (ev : list event),
     exec A H has_route on_recv on_ack c o = Some (c', ev) ->
     (forall p pf h, o = ORecv p pf h -> p_dst p <> c_name A c) ->
     (forall p a pf h, o = OAck p a pf h -> p_src p <> c_name A c) ->
+    (forall a, o <> OSetApp a) ->       (* OSetApp = the token modules' own user transactions *)
     c_app A c' = c_app A c.
 Proof. exact transit_no_app_logic. Qed.
 Print Assumptions C11_transit_no_app_logic.
